@@ -20,6 +20,10 @@ def gen(rng, tier):
     c = G.gen_fa(rng, plain_symbols=True, adversarial=rng.chance(0.1), max_states=rng.pick([3, 4, 5]),
                  max_trans=rng.pick([5, 8, 10]))
     toks = rng.pick(TOKENS)
+    if rng.chance(0.12):
+        # int symbols (0 / 1 / 2): no metacharacter, no blank; the regular expression spells them "0", "1", "2"
+        toks = ["a", "b", "c"]
+        c["symmode"] = "cfg:binint"
     ren = dict(zip(G.SYMBOLS, toks))
     ren.update(dict(zip(G.MULTI_SYMBOLS, toks + ["c"])))
     c["symbols"] = [ren[s] for s in c["symbols"]]
@@ -39,8 +43,14 @@ def shrink(case):
 
 
 def run(case, out):
-    ref = G.ref_of(case)
     fa = G.build(case)
+    if case["symmode"].startswith("cfg:"):
+        # a regular expression is a text: the reference language is the automaton's with every symbol value printed
+        out.probe("int_symbols")
+        m = {x: str(G.yval(case, x)) for x in case["symbols"]}
+        case = dict(case, symmode="str", symbols=[m[x] for x in case["symbols"]],
+                    trans=[[p, None if a is None else m[a], q] for p, a, q in case["trans"]])
+    ref = G.ref_of(case)
     out.sig = G.signature(fa)
     out.shape = G.shape_digest(case)
     out.fault("value_hash" if case.get("hash") else "hashseed_only")
